@@ -65,6 +65,24 @@ impl<'a, 'info> RevertiblePosition<'a, 'info> {
     }
 }
 
+/// Verification hooks (runtime monitors in `/verif`): public forwarding wrappers only.
+#[cfg(gmsol_verif)]
+impl<'a, 'info> RevertiblePosition<'a, 'info> {
+    /// Public wrapper of [`RevertiblePosition::new`].
+    pub fn verif_new(
+        market: RevertibleMarket<'a, 'info>,
+        loader: &'a AccountLoader<'info, Position>,
+        allow_market_closed: bool,
+    ) -> Result<Self> {
+        Self::new(market, loader, allow_market_closed)
+    }
+
+    /// The buffered position state.
+    pub fn verif_state(&self) -> &PositionState {
+        &self.state
+    }
+}
+
 impl Revertible for RevertiblePosition<'_, '_> {
     fn commit(mut self) {
         self.market.commit();
